@@ -51,6 +51,9 @@ class ParallelGate(raw_types.Gate):
         self._sub_gate = sub_gate
         self._num_copies = num_copies
 
+    def _qid_shape_(self) -> tuple[int, ...]:
+        return protocols.qid_shape(self.sub_gate) * self.num_copies
+
     def num_qubits(self) -> int:
         return self.sub_gate.num_qubits() * self._num_copies
 
